@@ -320,7 +320,77 @@ def check_insert_local_changes(u):
     return obligations, failures, ["%s:%d arms: %s" % (file, _line(src, mo), [p for p, _, _ in arms])]
 
 
-CHECKS = {"local_write_sequence": check_local_write_sequence, "insert_local_changes": check_insert_local_changes, "authz_layer": check_authz_layer, "readonly_guard": check_readonly_guard, "read_pool": check_read_pool}
+PER_ACTOR_TABLES = ("__corro_buffered_changes", "__corro_seq_bookkeeping", "__corro_bookkeeping_gaps", "crsql_changes", "crsql_db_versions")
+
+
+def _sql_levels(sql):
+    """split a SQL text into nesting levels: returns list of texts, one per parenthesised sub-SELECT (and the top level), each with
+    its nested sub-SELECTs blanked out"""
+    sql = re.sub(r"--[^\n]*", " ", sql)
+    levels = []
+
+    def walk(text):
+        out = []
+        i = 0
+        while i < len(text):
+            if text[i] == "(":
+                d = 1
+                j = i + 1
+                while j < len(text) and d:
+                    d += text[j] == "("
+                    d -= text[j] == ")"
+                    j += 1
+                inner = text[i + 1:j - 1]
+                if re.match(r"\s*SELECT\b", inner, re.I):
+                    walk(inner)
+                    out.append(" (SUBSELECT) ")
+                else:
+                    out.append("(" + inner + ")")
+                i = j
+            else:
+                out.append(text[i])
+                i += 1
+        levels.append(" ".join("".join(out).split()))
+
+    walk(sql)
+    return levels
+
+
+def check_sql_actor_scoping(u):
+    """Versions are numbered per origin actor.  Every SQL statement of the file that reads, deletes or updates a per-actor bookkeeping
+    table by version (`db_version` in a WHERE level, or `start`/`end` of a gap row) must constrain the actor (site_id / actor_id) at the
+    same nesting level — otherwise it mixes the version spaces of different actors."""
+    file = u["file"]
+    src = open(os.path.join(REPO, file)).read()
+    from .lex import iter_string_literals
+    obligations, failures, samples = [], [], []
+    n = 0
+    for (off, text) in iter_string_literals(src):
+        if not re.search(r"\b(SELECT|DELETE|UPDATE)\b", text) or not any(t in text for t in PER_ACTOR_TABLES):
+            continue
+        if re.search(r"\bCREATE\s+(TABLE|INDEX)\b", text, re.I):
+            continue
+        line = _line(src, off)
+        for lvl in _sql_levels(text):
+            m = re.search(r"\bWHERE\b(.*)$", lvl, re.I)
+            if not m:
+                continue
+            where = re.split(r"\b(GROUP BY|ORDER BY|LIMIT)\b", m.group(1), flags=re.I)[0]
+            vcols = r"\b(db_version|start|end)\b" if "__corro_bookkeeping_gaps" in text else r"\bdb_version\b"
+            if not re.search(vcols, where):
+                continue
+            n += 1
+            name = "sql-at-line-%d-level-%d-is-scoped-to-one-actor" % (line, n)
+            obligations.append(name)
+            samples.append("%s:%d WHERE %s" % (file, line, where.strip()[:90]))
+            if not re.search(r"\b(site_id|actor_id)\b", where):
+                failures.append((name, line, "a WHERE clause selects by db_version without constraining site_id/actor_id: `%s`" % where.strip()[:120]))
+    if not obligations:
+        raise LostAnchor("no per-actor SQL statements found in %s" % file)
+    return obligations, failures, samples
+
+
+CHECKS = {"sql_actor_scoping": check_sql_actor_scoping, "local_write_sequence": check_local_write_sequence, "insert_local_changes": check_insert_local_changes, "authz_layer": check_authz_layer, "readonly_guard": check_readonly_guard, "read_pool": check_read_pool}
 
 
 def run_unit(prop, u, tier, ctx, here):
@@ -335,7 +405,7 @@ def run_unit(prop, u, tier, ctx, here):
     failed_names = set(f[0] for f in failures)
     rec["discharged"] = len([x for x in obligations if x not in failed_names])
     rec["samples"] = ["%s: structural obligation `%s`" % (u["name"], x) for x in obligations[:8]] + samples[:4]
-    rec["cmd"] = "./check %s --only %s   (structural: vx/structural.py %s on %s::%s)" % (prop, u["name"], u["check"], u["file"], u["fn"])
+    rec["cmd"] = "./check %s --only %s   (structural: vx/structural.py %s on %s::%s)" % (prop, u["name"], u["check"], u["file"], u.get("fn", "*"))
     rec["trusted"] = list(u.get("trusted", []))
     rec["failures"] = [{"obligation": "%s::structural:%s" % (u["name"], n), "kind": "structural", "tag": n,
                         "repo_location": "%s:%d" % (u["file"], ln), "spec_location": None, "message": msg,
